@@ -248,7 +248,7 @@ example :
   refine ⟨⟨?_⟩, hw, ?_⟩
   · intro o ho
     simp only [H, List.mem_cons, List.mem_nil_iff, or_false] at ho
-    rcases ho with rfl | rfl | rfl <;> exact ⟨by decide, by decide, by decide⟩
+    rcases ho with rfl | rfl | rfl <;> exact ⟨by decide, by decide⟩
   · have r1 := Reach.op (F := 3600000) (n := 2) (H := H) _ _ ⟨0, ⟨1, t1, false⟩⟩ Reach.empty
       (by simp [H]) (Or.inl hw)
     have r2 := Reach.op (F := 3600000) (n := 2) (H := H) _ _ ⟨1, ⟨1, t2, true⟩⟩ Reach.empty
